@@ -32,6 +32,9 @@ use uuid::Uuid;
 struct Entry {
     layout: LayoutIr,
     refs: Vec<Member>,
+    /// the lexical id of an instantiation of a generic type (schema::Name<P>) differs from the
+    /// one its layout carries (schema::Name); None = the layout's
+    lex: Option<LexicalId>,
 }
 
 thread_local! {
@@ -46,7 +49,11 @@ impl<const N: usize> Introspectable for Slot<N> {
     }
 
     fn lexical_id() -> LexicalId {
-        Self::layout().lexical_id()
+        TABLE.with(|t| {
+            let t = t.borrow();
+            let e = t[N].as_ref().expect("slot in use");
+            e.lex.unwrap_or_else(|| e.layout.lexical_id())
+        })
     }
 
     fn add_references(references: &mut References) {
@@ -135,7 +142,7 @@ pub fn install_raw(nodes: Vec<RawEntry>) {
         t.clear();
         t.resize(SLOTS, None);
         for (i, n) in nodes.into_iter().enumerate() {
-            t[i] = Some(Entry { layout: n.layout, refs: n.refs.into_iter().map(|j| Member::S(Wrap::Plain, j)).collect() });
+            t[i] = Some(Entry { layout: n.layout, refs: n.refs.into_iter().map(|j| Member::S(Wrap::Plain, j)).collect(), lex: None });
         }
     });
 }
@@ -261,6 +268,22 @@ impl M {
 }
 
 impl TypeD {
+    /// `G<u8>` / `G<string>` name an instantiation of the generic type `G` (as the tuples of the
+    /// standard library are): the layout carries the bare name, the lexical id the parameter too.
+    pub fn base_name(&self) -> &'static str {
+        self.name.split_once('<').map(|(b, _)| b).unwrap_or(self.name)
+    }
+
+    fn generic_lex(&self) -> Option<LexicalId> {
+        let (base, rest) = self.name.split_once('<')?;
+        let param = match rest.trim_end_matches('>') {
+            "u8" => LexicalId::U8,
+            "string" => LexicalId::STRING,
+            other => panic!("unknown generic parameter {other}"),
+        };
+        Some(LexicalId::custom_generic(self.schema, base, &[param]))
+    }
+
     pub fn members(&self) -> Vec<M> {
         let mut out = Vec::new();
         match &self.shape {
@@ -286,14 +309,14 @@ impl TypeD {
             Shape::Struct { fields, fb } => {
                 let mut f: Vec<String> = fields.iter().map(|f| format!("{}:{}:{}:{}", f.id, f.name, f.required, f.ty.canon(g))).collect();
                 f.sort();
-                format!("struct {}::{} [{}] fb={:?}", self.schema, self.name, f.join(","), fb)
+                format!("struct {}::{} [{}] fb={:?}", self.schema, self.base_name(), f.join(","), fb)
             }
             Shape::Enum { vars, fb } => {
                 let mut v: Vec<String> = vars.iter().map(|v| format!("{}:{}:{}", v.id, v.name, opt(&v.ty))).collect();
                 v.sort();
-                format!("enum {}::{} [{}] fb={:?}", self.schema, self.name, v.join(","), fb)
+                format!("enum {}::{} [{}] fb={:?}", self.schema, self.base_name(), v.join(","), fb)
             }
-            Shape::Newtype(t) => format!("newtype {}::{} = {}", self.schema, self.name, t.canon(g)),
+            Shape::Newtype(t) => format!("newtype {}::{} = {}", self.schema, self.base_name(), t.canon(g)),
             Shape::Service { uuid, version, fns, evs, fn_fb, ev_fb } => {
                 let mut f: Vec<String> = fns.iter().map(|f| format!("{}:{}:{}:{}:{}", f.id, f.name, opt(&f.args), opt(&f.ok), opt(&f.err))).collect();
                 f.sort();
@@ -315,7 +338,7 @@ impl TypeD {
         }
         match &self.shape {
             Shape::Struct { fields, fb } => {
-                let mut b = StructIr::builder(self.schema, self.name);
+                let mut b = StructIr::builder(self.schema, self.base_name());
                 if doc {
                     b = b.doc("type doc");
                 }
@@ -336,7 +359,7 @@ impl TypeD {
                 b.finish().into()
             }
             Shape::Enum { vars, fb } => {
-                let mut b = EnumIr::builder(self.schema, self.name);
+                let mut b = EnumIr::builder(self.schema, self.base_name());
                 if doc {
                     b = b.doc("type doc");
                 }
@@ -360,7 +383,7 @@ impl TypeD {
                 b.finish().into()
             }
             Shape::Newtype(t) => {
-                let mut b = NewtypeIr::builder(self.schema, self.name, t.lex(p));
+                let mut b = NewtypeIr::builder(self.schema, self.base_name(), t.lex(p));
                 if doc {
                     b = b.doc("type doc");
                 }
@@ -448,9 +471,9 @@ impl Graph {
             for (i, ty) in self.types.iter().enumerate() {
                 let placeholder: LayoutIr = match &ty.shape {
                     Shape::Service { uuid, version, .. } => ServiceIr::builder(ty.schema, ty.name, svc_uuid(*uuid), *version).finish().into(),
-                    _ => StructIr::builder(ty.schema, ty.name).finish().into(),
+                    _ => StructIr::builder(ty.schema, ty.base_name()).finish().into(),
                 };
-                t[p.host[i]] = Some(Entry { layout: placeholder, refs: vec![] });
+                t[p.host[i]] = Some(Entry { layout: placeholder, refs: vec![], lex: ty.generic_lex() });
             }
         });
         let built: Vec<(usize, Entry)> = self
@@ -469,7 +492,7 @@ impl Graph {
                         refs = twice;
                     }
                 }
-                (p.host[i], Entry { layout: ty.layout(p), refs })
+                (p.host[i], Entry { layout: ty.layout(p), refs, lex: ty.generic_lex() })
             })
             .collect();
         TABLE.with(|t| {
@@ -913,6 +936,63 @@ pub fn run(tier: Tier) -> ! {
     let n_f4 = f4.len();
     f4.par_iter().enumerate().for_each(|(i, g)| check_graph(&cx, g, &p3, i % 13 == 0));
 
+    // F5: two instantiations of one generic type (same schema and name in their layouts, lexical
+    //     ids that differ in the parameter — what the tuples of the standard library look like)
+    //     reachable from one root, side by side and in a chain; every leaf shape for each
+    let inst_shapes = |param: M| -> Vec<Shape> {
+        vec![
+            Shape::Struct { fields: vec![FieldD { id: 1, name: "x", required: true, ty: param.clone() }], fb: None },
+            Shape::Struct { fields: vec![FieldD { id: 1, name: "x", required: true, ty: param.clone() }, FieldD { id: 2, name: "y", required: false, ty: M::U8 }], fb: None },
+            Shape::Struct { fields: vec![FieldD { id: 1, name: "x", required: false, ty: param.clone() }], fb: Some("fb") },
+            Shape::Enum { vars: vec![VarD { id: 1, name: "X", ty: Some(param.clone()) }], fb: None },
+            Shape::Enum { vars: vec![VarD { id: 1, name: "X", ty: Some(param.clone()) }, VarD { id: 2, name: "Y", ty: None }], fb: None },
+            Shape::Newtype(param),
+        ]
+    };
+    let mut f5: Vec<Graph> = Vec::new();
+    for l1 in inst_shapes(M::U8) {
+        for l2 in inst_shapes(M::Str) {
+            for w1 in [Wrap::Plain, Wrap::Opt, Wrap::Vec] {
+                for w2 in [Wrap::Plain, Wrap::Box] {
+                    for (ta, tb) in [(1usize, 2usize), (2, 1)] {
+                        // side by side
+                        f5.push(Graph {
+                            types: vec![
+                                TypeD { schema: "s", name: "A", shape: Shape::Struct { fields: vec![FieldD { id: 1, name: "a", required: false, ty: M::T(w1, ta) }, FieldD { id: 2, name: "b", required: true, ty: M::T(w2, tb) }], fb: None } },
+                                TypeD { schema: "g", name: "G<u8>", shape: l1.clone() },
+                                TypeD { schema: "g", name: "G<string>", shape: l2.clone() },
+                            ],
+                        });
+                    }
+                    // only one of them (the other one is unreachable)
+                    f5.push(Graph {
+                        types: vec![
+                            TypeD { schema: "s", name: "A", shape: Shape::Struct { fields: vec![FieldD { id: 1, name: "a", required: false, ty: M::T(w1, 1) }, FieldD { id: 2, name: "b", required: true, ty: M::T(w2, 1) }], fb: None } },
+                            TypeD { schema: "g", name: "G<u8>", shape: l1.clone() },
+                            TypeD { schema: "g", name: "G<string>", shape: l2.clone() },
+                        ],
+                    });
+                }
+            }
+        }
+    }
+    // in a chain: A -> G<u8> -> G<string>
+    for l2 in inst_shapes(M::Str) {
+        for w1 in [Wrap::Plain, Wrap::Opt] {
+            for w2 in [Wrap::Opt, Wrap::Vec, Wrap::Box] {
+                f5.push(Graph {
+                    types: vec![
+                        TypeD { schema: "s", name: "A", shape: Shape::Newtype(M::T(w1, 1)) },
+                        TypeD { schema: "g", name: "G<u8>", shape: Shape::Struct { fields: vec![FieldD { id: 1, name: "x", required: true, ty: M::U8 }, FieldD { id: 2, name: "next", required: false, ty: M::T(w2, 2) }], fb: None } },
+                        TypeD { schema: "g", name: "G<string>", shape: l2.clone() },
+                    ],
+                });
+            }
+        }
+    }
+    let n_f5 = f5.len();
+    f5.par_iter().enumerate().for_each(|(i, g)| check_graph(&cx, g, &p3, i % 29 == 0));
+
     // Part B: generated code (text path, macro path, reordered twins) against the hand-built IR
     let part_b = generated_part(&cx, tier);
 
@@ -934,6 +1014,7 @@ pub fn run(tier: Tier) -> ! {
         "two_type_wirings": n_f2,
         "three_type_wirings": n_f3,
         "same_name_across_schemas_graphs": n_f4,
+        "generic_instantiation_graphs": n_f5,
         "generated_code": part_b,
         "presentations_per_graph": {"one": p1.len(), "two": p2.len(), "three": p3.len()},
         "distinct_descriptions": distinct,
